@@ -54,14 +54,14 @@ RECURSIVE DecR(_, _, _)
 DecC(t, w, i) == With(t, LAMBDA tt : With(i, LAMBDA ii : DecR(tt, w, ii)))
 DecR(t, w, i) ==
     CASE IsLeaf(t) ->
-            [v |-> [b \in 1..LeafBits(t) |-> Rd(w, i + b - 1)], i |-> i + LeafBits(t)]
+            [v |-> Eager([b \in 1..LeafBits(t) |-> Rd(w, i + b - 1)]), i |-> i + LeafBits(t)]
       [] t.k = "alias" -> DecC(t.to, w, i)
       [] t.k = "array" ->
             With(IF t.ext THEN Num16(w, i) ELSE 0, LAMBDA ahead :
             With(i + (IF t.ext THEN 16 ELSE 0), LAMBDA i1 :
             With(IF Fixed(t.elem)
                  THEN With(NBits(t.elem), LAMBDA E :
-                        [v |-> [e \in 1..t.cap |-> DecC(t.elem, w, i1 + (e - 1) * E).v],
+                        [v |-> Eager([e \in 1..t.cap |-> DecC(t.elem, w, i1 + (e - 1) * E).v]),
                          i |-> i1 + t.cap * E])
                  ELSE FoldLeft(LAMBDA acc, e :
                                   With(DecC(t.elem, w, acc.i), LAMBDA d :
@@ -75,7 +75,7 @@ DecR(t, w, i) ==
             With(FoldLeft(LAMBDA acc, x :
                              With(DecC(t.fields[x].t, w, acc.i), LAMBDA d :
                                   [v |-> [acc.v EXCEPT ![x] = d.v], i |-> d.i]),
-                          [v |-> [x \in 1..Len(t.fields) |-> <<>>],
+                          [v |-> Eager([x \in 1..Len(t.fields) |-> <<>>]),
                            i |-> i + (IF t.ext THEN 16 ELSE 0)],
                           Order(t.fields)),
                  LAMBDA r :
@@ -89,11 +89,11 @@ RECURSIVE RestrictV(_, _, _)
 RestrictV(tO, tN, v) ==
     CASE IsLeaf(tO) -> v
       [] tO.k = "alias" -> RestrictV(tO.to, tN.to, v)
-      [] tO.k = "array" -> [e \in 1..tO.cap |-> RestrictV(tO.elem, tN.elem, v[e])]
+      [] tO.k = "array" -> Eager([e \in 1..tO.cap |-> RestrictV(tO.elem, tN.elem, v[e])])
       [] tO.k = "msg" ->
-            [x \in 1..Len(tO.fields) |->
+            Eager([x \in 1..Len(tO.fields) |->
                 LET y == CHOOSE y \in 1..Len(tN.fields) : tN.fields[y].num = tO.fields[x].num
-                IN  RestrictV(tO.fields[x].t, tN.fields[y].t, v[y])]
+                IN  RestrictV(tO.fields[x].t, tN.fields[y].t, v[y])])
 
 (* ---- JSON ---- *)
 (* neutral JSON tree: [j |-> "o", kv |-> << <<key, tree>>, ... >>],        *)
@@ -122,11 +122,11 @@ JsonOf(t, v) ==
       [] t.k \in {"byte", "uint", "enum"} -> JsonNum(v, FALSE)
       [] t.k = "int" -> JsonNum(v, TRUE)
       [] t.k = "alias" -> JsonOf(t.to, v)
-      [] t.k = "array" -> [j |-> "l", xs |-> [e \in 1..t.cap |-> JsonOf(t.elem, v[e])]]
+      [] t.k = "array" -> [j |-> "l", xs |-> Eager([e \in 1..t.cap |-> JsonOf(t.elem, v[e])])]
       [] t.k = "msg" ->
             With(Order(t.fields), LAMBDA ord :
-                [j |-> "o", kv |-> [p \in 1..Len(ord) |->
-                    <<t.fields[ord[p]].name, JsonOf(t.fields[ord[p]].t, v[ord[p]])>>]])
+                [j |-> "o", kv |-> Eager([p \in 1..Len(ord) |->
+                    <<t.fields[ord[p]].name, JsonOf(t.fields[ord[p]].t, v[ord[p]])>>])])
 
 (* ---- C storage ---- *)
 (* memory image of a leaf in its C storage, little-endian bit order,       *)
